@@ -11,54 +11,77 @@ use super::*;
 // state (z finite; n is a sum of squares starting from +0, hence >= +0; +inf allowed for n).
 // `FtrlParams::check_ref` rejects beta = -0.0 (`is_negative`), so beta is +0 or positive.
 fn hyper_ok(alpha: f32, beta: f32, l1: f32, l2: f32) -> bool {
-    alpha.is_finite() && alpha > 0.0 && beta.is_finite() && beta >= 0.0 && beta.is_sign_positive() && l1 >= 0.0 && l1 <= 1.0 && l2 >= 0.0 && l2 <= 1.0
+    alpha.is_finite() && alpha > 0.0 && beta.is_finite() && beta >= 0.0 && beta.is_sign_positive()
+        && l1 >= 0.0 && l1 <= 1.0 && l2 >= 0.0 && l2 <= 1.0
+}
+fn any6() -> (f32, f32, f32, f32, f32, f32) {
+    (kani::any(), kani::any(), kani::any(), kani::any(), kani::any(), kani::any())
 }
 
-// FTRL-proximal closed form (McMahan et al. 2013, eq. for w_{t+1,i}; linked from the rustdoc of `Ftrl::params`):
-//   w = 0                                              if |z| <= l1
-//   w = -(z - sgn(z) l1) / ((beta + sqrt(n))/alpha + l2)   otherwise
-// `sqrt` is the uninterpreted ghost function, the oracle re-evaluates it (functionality axiom).
-// @unit class=complete tier=quick mem=light timeout=300 fns=linfa_ftrl::algorithm::apply_proximal_to_weights
+// Sparsity clause of the property, real IEEE arithmetic (only sqrt is a ghost):
+// "FTRL weights are exactly zero wherever |z| does not exceed the l1 strength"; otherwise the
+// weight is never NaN and opposes z (consequences of the closed form that do not restate the body).
+// @unit class=complete tier=quick mem=light timeout=600 fns=linfa_ftrl::algorithm::apply_proximal_to_weights
 #[kani::proof]
 #[kani::unwind(7)]
 #[kani::stub(f32::sqrt, memo_sqrt32)]
 #[kani::stub(alloc::fmt::format, fmt_stub)]
-fn c15_ftrl_prox_closed_form() {
-    let (z, n, alpha, beta, l1, l2): (f32, f32, f32, f32, f32, f32) =
-        (kani::any(), kani::any(), kani::any(), kani::any(), kani::any(), kani::any());
+fn c15_ftrl_prox_sparsity_sign() {
+    let (z, n, alpha, beta, l1, l2) = any6();
     kani::assume(z.is_finite() && n >= 0.0 && n.is_sign_positive() && hyper_ok(alpha, beta, l1, l2));
     let w = apply_proximal_to_weights(z, n, alpha, beta, l1, l2);
     let absz = if z < 0.0 { -z } else { z };
     if absz <= l1 {
-        // sparsity clause: exactly zero (positive zero), never a tiny non-zero
         assert!(w == 0.0);
     } else {
-        let sgn: f32 = if z > 0.0 { 1.0 } else { -1.0 };
-        let expect = (sgn * l1 - z) / ((memo_sqrt32(n) + beta) / alpha + l2);
-        assert!(w == expect);
-        // consequences that do not restate the body: the weight opposes z and is never NaN
         assert!(!w.is_nan());
         assert!(if z > 0.0 { w <= 0.0 } else { w >= 0.0 });
     }
     kani::cover!(absz <= l1 && z != 0.0);
+    kani::cover!(absz == l1 && l1 > 0.0);
     kani::cover!(absz > l1 && w < 0.0 && w.is_finite());
     kani::cover!(absz > l1 && w > 0.0 && w.is_finite());
-    kani::cover!(absz == l1 && l1 > 0.0);
 }
 
-// sigma_i = (sqrt(n_i + g_i^2) - sqrt(n_i)) / alpha  (per-coordinate learning-rate increment)
-// @unit class=complete tier=quick mem=light timeout=300 fns=linfa_ftrl::algorithm::calculate_weight_in_average
+// FTRL-proximal closed form (McMahan et al. 2013, linked from the rustdoc of `Ftrl::params`):
+//   w = -(z - sgn(z) l1) / ((beta + sqrt(n))/alpha + l2)      if |z| > l1
+// `sqrt` is the ghost function; `/` is an uninterpreted function (see C15/ghost_cache.rs), so the
+// statement proved is  w == DIV(sgn(z) l1 - z, DIV(sqrt(n) + beta, alpha) + l2)  for every DIV.
+// @unit class=complete tier=quick mem=light timeout=600 fns=linfa_ftrl::algorithm::apply_proximal_to_weights
+#[kani::proof]
+#[kani::unwind(7)]
+#[kani::stub(f32::sqrt, memo_sqrt32)]
+#[kani::stub(<f32 as core::ops::Div<f32>>::div, uf_div32)]
+#[kani::stub(alloc::fmt::format, fmt_stub)]
+fn c15_ftrl_prox_closed_form() {
+    let (z, n, alpha, beta, l1, l2) = any6();
+    kani::assume(z.is_finite() && n >= 0.0 && n.is_sign_positive() && hyper_ok(alpha, beta, l1, l2));
+    let w = apply_proximal_to_weights(z, n, alpha, beta, l1, l2);
+    let absz = if z < 0.0 { -z } else { z };
+    if absz > l1 {
+        let sgn: f32 = if z > 0.0 { 1.0 } else { -1.0 };
+        let expect = uf_div32(sgn * l1 - z, uf_div32(memo_sqrt32(n) + beta, alpha) + l2);
+        assert!(w.to_bits() == expect.to_bits());
+    } else {
+        assert!(w.to_bits() == 0); // +0.0, and no division was evaluated
+        assert!(unsafe { C_DIV_N } == 0);
+    }
+    kani::cover!(absz > l1 && z > 0.0);
+    kani::cover!(absz > l1 && z < 0.0);
+    kani::cover!(absz <= l1);
+}
+
+// sigma_i = (sqrt(n_i + g_i^2) - sqrt(n_i)) / alpha ; real IEEE arithmetic, consequences only:
+// learning rates never increase (sigma >= 0, never NaN) and a zero gradient changes nothing.
+// @unit class=complete tier=quick mem=light timeout=600 fns=linfa_ftrl::algorithm::calculate_weight_in_average
 #[kani::proof]
 #[kani::unwind(7)]
 #[kani::stub(f32::sqrt, memo_sqrt32)]
 #[kani::stub(alloc::fmt::format, fmt_stub)]
-fn c15_ftrl_sigma_closed_form() {
+fn c15_ftrl_sigma_nonneg() {
     let (n, g, alpha): (f32, f32, f32) = (kani::any(), kani::any(), kani::any());
     kani::assume(n.is_finite() && n >= 0.0 && n.is_sign_positive() && g.is_finite() && alpha.is_finite() && alpha > 0.0);
     let s = calculate_weight_in_average(n, g, alpha);
-    let expect = (memo_sqrt32(n + g * g) - memo_sqrt32(n)) / alpha;
-    assert!(s == expect);
-    // consequences: learning rates never increase (sigma >= 0), and a zero gradient changes nothing
     assert!(!s.is_nan() && s >= 0.0);
     if g == 0.0 {
         assert!(s == 0.0);
@@ -68,49 +91,85 @@ fn c15_ftrl_sigma_closed_form() {
     kani::cover!(g < 0.0 && s > 0.0);
 }
 
+// closed form with `/` and `*` uninterpreted: s == DIV(sqrt(n + MUL(g, g)) - sqrt(n), alpha)
+// @unit class=complete tier=quick mem=light timeout=600 fns=linfa_ftrl::algorithm::calculate_weight_in_average
+#[kani::proof]
+#[kani::unwind(7)]
+#[kani::stub(f32::sqrt, memo_sqrt32)]
+#[kani::stub(<f32 as core::ops::Div<f32>>::div, uf_div32)]
+#[kani::stub(<f32 as core::ops::Mul<f32>>::mul, uf_mul32)]
+#[kani::stub(alloc::fmt::format, fmt_stub)]
+fn c15_ftrl_sigma_closed_form() {
+    let (n, g, alpha): (f32, f32, f32) = (kani::any(), kani::any(), kani::any());
+    kani::assume(n.is_finite() && n >= 0.0 && n.is_sign_positive() && g.is_finite() && alpha.is_finite() && alpha > 0.0);
+    let s = calculate_weight_in_average(n, g, alpha);
+    let expect = uf_div32(memo_sqrt32(n + uf_mul32(g, g)) - memo_sqrt32(n), alpha);
+    assert!(s.to_bits() == expect.to_bits());
+    kani::cover!(g != 0.0 && s != 0.0);
+    kani::cover!(unsafe { C_DIV_N } == 1 && unsafe { C_MUL_N } == 1);
+}
+
 const SLACK: f32 = 4.76837158203125e-7; // 2^-21
 
-// stable_sigmoid: value in [0,1] for every non-NaN input, saturates outside [-35, 35],
-// monotone non-decreasing up to rounding (exp is only known to be monotone, see ghost axioms).
-// @unit class=complete tier=quick mem=light timeout=300 fns=linfa_ftrl::algorithm::stable_sigmoid,linfa_ftrl::algorithm::positive_sigmoid,linfa_ftrl::algorithm::negative_sigmoid
+// stable_sigmoid is a probability for every non-NaN input (incl. +-inf), is <= 1/2 left of zero,
+// >= 1/2 right of it and exactly 1/2 at zero (so it is monotone across zero). Real IEEE arithmetic.
+// @unit class=complete tier=quick mem=light timeout=600 fns=linfa_ftrl::algorithm::stable_sigmoid,linfa_ftrl::algorithm::positive_sigmoid,linfa_ftrl::algorithm::negative_sigmoid
 #[kani::proof]
 #[kani::unwind(7)]
 #[kani::stub(f32::exp, memo_exp32)]
 #[kani::stub(alloc::fmt::format, fmt_stub)]
-fn c15_ftrl_sigmoid_range_monotone() {
-    let (x, y): (f32, f32) = (kani::any(), kani::any());
-    kani::assume(!x.is_nan() && !y.is_nan() && x <= y);
+fn c15_ftrl_sigmoid_range_half() {
+    let x: f32 = kani::any();
+    kani::assume(!x.is_nan());
     let sx = stable_sigmoid(x);
-    let sy = stable_sigmoid(y);
     assert!(sx >= 0.0 && sx <= 1.0);
-    assert!(sy >= 0.0 && sy <= 1.0);
-    assert!(sx <= sy + SLACK);
     if x < 0.0 { assert!(sx <= 0.5); } else { assert!(sx >= 0.5); }
     if x == 0.0 { assert!(sx == 0.5); }
-    kani::cover!(x < 0.0 && y > 0.0 && sx < sy);
-    kani::cover!(x < y && y < 0.0);
-    kani::cover!(0.0 < x && x < y);
-    kani::cover!(x == f32::NEG_INFINITY && y == f32::INFINITY);
+    assert!(sx > 0.0); // the clamp keeps exp(-35) a positive normal number: never exactly 0
+    kani::cover!(x < 0.0 && sx < 0.5);
+    kani::cover!(x > 0.0 && sx > 0.5 && sx < 1.0);
+    kani::cover!(x == f32::NEG_INFINITY);
+    kani::cover!(x == f32::INFINITY);
 }
 
-// @unit class=complete tier=quick mem=light timeout=300 fns=linfa_ftrl::algorithm::stable_sigmoid
+// saturation: every x >= 35 gives the value at 35, every x <= -35 the value at -35 (`/` uninterpreted)
+// @unit class=complete tier=quick mem=light timeout=600 fns=linfa_ftrl::algorithm::stable_sigmoid
 #[kani::proof]
 #[kani::unwind(7)]
 #[kani::stub(f32::exp, memo_exp32)]
+#[kani::stub(<f32 as core::ops::Div<f32>>::div, uf_div32)]
 #[kani::stub(alloc::fmt::format, fmt_stub)]
 fn c15_ftrl_sigmoid_clamps() {
     let x: f32 = kani::any();
     kani::assume(!x.is_nan());
-    let sx = stable_sigmoid(x);
     let hi = stable_sigmoid(35.0f32);
     let lo = stable_sigmoid(-35.0f32);
-    if x >= 35.0 { assert!(sx == hi); }
-    if x <= -35.0 { assert!(sx == lo); }
-    assert!(lo <= sx + SLACK && sx <= hi + SLACK);
-    assert!(lo > 0.0 && hi > 0.5); // exp(-35) is a positive normal f32: the clamp keeps the sigmoid off 0
+    let sx = stable_sigmoid(x);
+    if x >= 35.0 { assert!(sx.to_bits() == hi.to_bits()); }
+    if x <= -35.0 { assert!(sx.to_bits() == lo.to_bits()); }
     kani::cover!(x > 35.0);
     kani::cover!(x < -35.0);
-    kani::cover!(x > -35.0 && x < 35.0 && sx != hi && sx != lo);
+    kani::cover!(x > -35.0 && x < 35.0 && sx.to_bits() != hi.to_bits() && sx.to_bits() != lo.to_bits());
+}
+
+// monotone on the non-negative half line: 0 <= x <= y  =>  s(x) <= s(y)   (exp monotone: ghost axiom;
+// `/` monotone: mono_div32 axiom; `+` and unary minus: real IEEE). Together with range_half this gives
+// monotonicity for every pair that is not strictly negative on both sides.
+// @unit class=complete tier=quick mem=light timeout=600 fns=linfa_ftrl::algorithm::stable_sigmoid,linfa_ftrl::algorithm::positive_sigmoid
+#[kani::proof]
+#[kani::unwind(7)]
+#[kani::stub(f32::exp, memo_exp32)]
+#[kani::stub(<f32 as core::ops::Div<f32>>::div, mono_div32)]
+#[kani::stub(alloc::fmt::format, fmt_stub)]
+fn c15_ftrl_sigmoid_monotone_nonneg() {
+    let (x, y): (f32, f32) = (kani::any(), kani::any());
+    kani::assume(!x.is_nan() && !y.is_nan() && x <= y && x >= 0.0);
+    let sx = stable_sigmoid(x);
+    let sy = stable_sigmoid(y);
+    assert!(sx <= sy + SLACK);
+    assert!(sx <= sy);
+    kani::cover!(x < y && sx < sy);
+    kani::cover!(x < y && y > 35.0);
 }
 
 // ---- true Kani function contract (S3: attributes injected from ftrl.attrs above the real private fn) ----
@@ -120,13 +179,12 @@ fn c15_ftrl_sigmoid_clamps() {
 fn sqrt_arbitrary(_x: f32) -> f32 {
     kani::any()
 }
-// @unit class=complete tier=quick mem=light timeout=300 fns=linfa_ftrl::algorithm::apply_proximal_to_weights
+// @unit class=complete tier=quick mem=light timeout=600 fns=linfa_ftrl::algorithm::apply_proximal_to_weights
 #[kani::proof_for_contract(apply_proximal_to_weights)]
 #[kani::stub(f32::sqrt, sqrt_arbitrary)]
 #[kani::stub(alloc::fmt::format, fmt_stub)]
 fn c15_ftrl_prox_contract_sparsity() {
-    let (z, n, alpha, beta, l1, l2): (f32, f32, f32, f32, f32, f32) =
-        (kani::any(), kani::any(), kani::any(), kani::any(), kani::any(), kani::any());
+    let (z, n, alpha, beta, l1, l2) = any6();
     let w = apply_proximal_to_weights::<f32>(z, n, alpha, beta, l1, l2);
     kani::cover!(w == 0.0 && z != 0.0);
     kani::cover!(w != 0.0);
